@@ -9,7 +9,7 @@ import numpy as np
 
 from apihist import World, run_histories
 
-UNITS = ["Orders", "SolverStruct", "ShapesSolvers", "ShapesBasis", "ShapesApi"]
+UNITS = ["Orders", "SolverStruct", "ShapesSolvers", "ShapesBasis", "ShapesApi", "SkelBasis", "SkelSolvers", "SkelApi"]
 PROPS = ["props/C12.v"]
 EXTRA = ["theories/ApiTrace.vo"]
 ASSUMPTIONS = ["numpy aliasing itself is trusted through the translated structure facts and the hash correspondence",
